@@ -52,7 +52,7 @@ CONSTANTS Mode, MaxNodes, Enabled,
           SetAddrs,          \* address depths on the left of an assignment:  &x = ...
           LenAddrs,          \* address depths inside |x|
           TrailingCommas,    \* subset of BOOLEAN
-          LooseMembers       \* TRUE: also derive a last struct member without its comma (not shown in the documents)
+          LooseMembers       \* TRUE: also derive a last struct member without its comma (tests/samples/valid/view_aliasing.pn)
 
 VARIABLES toks, stack, pre, cur
 gvars == <<toks, stack, pre, cur>>
